@@ -7,7 +7,7 @@
    ([should_nest] = context.py _should_nest_selectable). *)
 From Coq Require Import List ZArith Bool.
 Import ListNotations.
-From SAV.orm Require Import Loaders LoadersBase LoadersJoin LoadersStmt LoadersSrc LoadersOne LoadersAttach LoadersSubq LoadersMain LoadersTheorems LoadersKeys.
+From SAV.orm Require Import Loaders LoadersBase LoadersJoin LoadersStmt LoadersSrc LoadersOne LoadersAttach LoadersSubq LoadersMain LoadersTheorems LoadersKeys LoadersIdent.
 Open Scope Z_scope.
 
 (* THE property: every assignment of strategies along the path - lazy, joined, subquery, immediate,
@@ -162,6 +162,22 @@ Theorem c40_selectin_key_dict_order_refuted : exists pairs pk parents children,
   selectin_down (fk_cols_dict_order pairs pk) pk parents children <> spec_down pairs parents children.
 Proof. exact dict_order_refuted. Qed.
 Print Assumptions c40_selectin_key_dict_order_refuted.
+
+(* the identity-map shortcut of lazy / immediate many-to-one loading (loading.get_from_identity): an object
+   found in the Session is used only if its class IS-A the relationship's target; then the result is the
+   relational meaning whatever is already in the Session, for every class hierarchy *)
+Theorem c40_m2o_lazy_history_independent : forall isa idmap db target fk, idmap_ok idmap db ->
+  m2o_lazy isa isa idmap db target fk = m2o_spec isa db target fk.
+Proof. exact m2o_lazy_history_independent. Qed.
+Print Assumptions c40_m2o_lazy_history_independent.
+
+(* accepting an object of an ANCESTOR class as well is refuted - and only with a pre-loaded Session *)
+Theorem c40_m2o_lazy_accept_ancestors_refuted : exists (h : hierarchy) idmap db target fk,
+  idmap_ok idmap db /\
+  m2o_lazy (accept_ancestors (isa_fuel h 3)) (isa_fuel h 3) idmap db target fk <> m2o_spec (isa_fuel h 3) db target fk /\
+  m2o_lazy (accept_ancestors (isa_fuel h 3)) (isa_fuel h 3) [] db target fk = m2o_spec (isa_fuel h 3) db target fk.
+Proof. exact m2o_lazy_accept_ancestors_refuted. Qed.
+Print Assumptions c40_m2o_lazy_accept_ancestors_refuted.
 
 (* non-vacuity: a well-formed three-level example (one-to-many then many-to-one, NULL foreign keys,
    LIMIT/OFFSET, duplicating join + DISTINCT) on which mixed assignments are computed *)
